@@ -598,7 +598,9 @@ class RangeDimension(Dimension):
         if self.has_link:
             # unlick object and set ticks
             self.remove_link()
-        self._h5group.write_data("ticks", ticks)
+        # ticks are stored as doubles (as create_new does): a dataset made
+        # from whole numbers would truncate fractions assigned later
+        self._h5group.write_data("ticks", ticks, dtype=DataType.Double)
 
     @property
     def label(self):
